@@ -6,7 +6,7 @@ Import ListNotations.
 From Coq Require Import ZArith.
 From CXV Require Import Gen.TokTy Gen.ParserTables Parse.Balanced Gen.Blocks Parse.BlocksSM.
 From CXV Require Import Base.Regex Base.Cost Gen.LexRules Lex.PlyLoop Gen.StreamTables Stream.TokBuf Fmt.TokFmt PP.Filters Misc.ReprModel Gen.Schema Parse.Fold Parse.Declarator Parse.DeclSpec Parse.EnumList Parse.BaseClause Parse.NsHeader Parse.Specs Parse.VarStmt Parse.FnTail Parse.Init Parse.Members Parse.MethodTail Parse.Template Parse.PQName Parse.Using Parse.EnumDecl Parse.ClassEnum Parse.TemplateArg Parse.CtorDtor Parse.ParamsX Parse.DeclStmt Parse.TemplateStmt Parse.MemberStmt Parse.OpName.
-From CXV Require Parse.DispatchLang Gen.Dispatch Parse.FinishClass Parse.ConvOp Parse.OperatorMember.
+From CXV Require Parse.DispatchLang Gen.Dispatch Parse.FinishClass Parse.ConvOp Parse.OperatorMember Parse.OperatorFn.
 From CXV Require Parse.Requires.
 Open Scope N_scope.
 
@@ -889,8 +889,22 @@ Definition run_op_member (args : list N) : list N :=
   | DErr e => [1; e]
   end.
 
+(* 115: an overloaded-operator function statement at namespace scope.  Output: 0, rest length, nine specifier flags, operator
+   token count, operator tokens, type length, function type, throw, noexcept, body, deleted *)
+Definition run_op_fn (args : list N) : list N :=
+  let toks := dec_tks args in
+  match OperatorFn.op_fn_stmt (4 * length toks + 8) toks with
+  | DOk (om, rest) =>
+      let tl := OperatorFn.of_tail om in
+      let x := enc_ty (TFn (OperatorFn.of_ret om) (OperatorFn.of_params om) (OperatorFn.of_vararg om)) in
+      0 :: nlen rest :: enc_mods (OperatorFn.of_mods om) ++ nlen (OperatorFn.of_op om) :: enc_tks (OperatorFn.of_op om) ++ nlen x :: x ++
+        enc_opt_tks (t_throw tl) ++ enc_opt_tks (t_noexcept tl) ++ [bN (t_body tl); bN (t_deleted tl)]
+  | DErr e => [1; e]
+  end.
+
 Definition run_case (cmd : N) (args : list N) : list N :=
   match cmd, args with
+  | 115, _ => run_op_fn args
   | 114, _ => run_op_member args
   | 113, _ => run_conv_stmt args
   | 112, _ => run_finish_class args
